@@ -24,8 +24,8 @@ func init() { register("C06", runC06, replayC06) }
 
 type c06Built struct {
 	entry    string
-	verify   func() error             // library verification of the constructed value
-	bytes    func() ([]byte, error)   // serialisation
+	verify   func() error                              // library verification of the constructed value
+	bytes    func() ([]byte, error)                    // serialisation
 	reparse  func(b []byte) (func() error, int, error) // parse -> (verify of reparsed, remainder length)
 	authKind refmodel.AuthKind
 }
